@@ -3,6 +3,7 @@ import re
 
 from ..core import AnalysisError
 from .. import cfront as C
+from .. import cgsa, gsa
 
 EXPLANATION = ('Only the layout ALGORITHM is in the source (the numbers come from libffi at run time).  clang AST rules over '
                'giroffsets.c, girffi.c, girnode.c, girparser.c: struct layout = align-to-member, record offset, advance, tail-pad; '
@@ -24,115 +25,124 @@ def stmt_texts(tu, compound):
     return [ns(tu.text_of(s)) for s in C.kids(compound)]
 
 
-def success_block(tu, f):
-    """then-branch of `if (get_field_size_alignment (...))`"""
-    for n in C.walk(tu.body(f)):
-        if n.get('kind') == 'IfStmt':
-            cond = C.kids(n)[0]
-            if any(C.callee(c) == 'get_field_size_alignment' for c in C.calls(cond)) and ns(tu.text_of(cond)).startswith('get_field_size_alignment'):
-                return n, C.kids(n)[1], (C.kids(n)[2] if len(C.kids(n)) > 2 else None)
-    raise AnalysisError('%s: `if (get_field_size_alignment (...))` not found' % f.get('name'))
+def rup(x, a):
+    """canonical text of GI_ALIGN (x, a) = (x + a - 1) & ~(a - 1)"""
+    return '((%s+%s)-1)&~(%s-1)' % (x, a, a)
+
+
+TAIL = re.compile(r'^\(\((.+)\+([\w.>-]+)\)-1\)&~\(([\w.>-]+)-1\)$')
 
 
 def check(ctx):
     tu = ctx.c.tu(GO)
 
-    # ------------------------------------------------------------------ R1 layout algorithm
+    # ------------------------------------------------------------------ R1 layout algorithm (gated summaries; macros expanded, helpers inlined)
     r1 = ctx.rule('R1', 'struct: align, record offset, advance, tail-pad; union: max, max, tail-pad; GI_ALIGN rounds up', floor=11)
-    m = re.search(r'#define\s+GI_ALIGN\s*\(\s*(\w+)\s*,\s*(\w+)\s*\)\s*(.*)', tu.text)
-    if not m:
-        raise AnalysisError('GI_ALIGN macro not found')
-    n_, a_ = m.group(1), m.group(2)
-    r1.check(ns(m.group(3)) == ns('(((%s) + (%s) - 1) & ~((%s) - 1))' % (n_, a_, a_)), 'GI_ALIGN (n, a) = (n + a - 1) & ~(a - 1)', GO, 1,
-             'GI_ALIGN is defined as %s: not the round-up-to-a-multiple identity for power-of-two alignments' % m.group(3).strip(), detail=m.group(3).strip())
-    sf = tu.func('compute_struct_field_offsets')
-    ifs, then, els = success_block(tu, sf)
-    st = stmt_texts(tu, then)
-    idx = {}
-    for i, t in enumerate(st):
-        for key, pat in (('align', 'size=GI_ALIGN(size,member_alignment)'), ('maxalign', 'alignment=MAX(alignment,member_alignment)'),
-                         ('offset', 'field->offset=size'), ('advance', 'size+=member_size')):
-            if t == pat:
-                idx[key] = i
-    r1.check(set(idx) == {'align', 'maxalign', 'offset', 'advance'}, 'struct member: the four layout steps are present', GO, tu.line(then),
-             'struct member layout steps found: %s in %s' % (sorted(idx), st), detail=st)
-    if len(idx) == 4:
-        r1.check(idx['align'] < idx['offset'] < idx['advance'], 'struct member: align before recording the offset, advance after', GO, tu.line(then),
-                 'order of the layout steps is %s: the member offset must be recorded after aligning and before adding the member size' % st)
-        others = [t for i, t in enumerate(st) if i not in idx.values()]
-        r1.check(not others, 'struct member: nothing else touches size/offset', GO, tu.line(then), 'extra statements: %s' % others)
-    r1.check(els is not None and ns(tu.text_of(els)) == 'have_error=TRUE', 'struct member: failure is recorded', GO, tu.line(ifs), 'else branch: %s' % (tu.text_of(els) if els else None))
-
-    def tail(f):
-        body = C.kids(tu.body(f))
-        texts = [ns(tu.text_of(s)) for s in body]
-        loops = [i for i, s in enumerate(body) if s.get('kind') == 'ForStmt']
-        if len(loops) != 1:
-            raise AnalysisError('%s: member loop not found' % f['name'])
-        after = texts[loops[0] + 1:]
-        return after
-    after = tail(sf)
-    r1.check(after and after[0] == 'size=GI_ALIGN(size,alignment)', 'struct tail padding right after the member loop', GO, tu.line(sf),
-             'after the member loop: %s — the size is not padded to a multiple of the alignment before it is published' % after[:2], detail=after[:1])
-    # embedded callback members
-    cbtexts = []
-    for n in C.walk(tu.body(sf)):
-        if n.get('kind') == 'IfStmt' and 'G_IR_NODE_CALLBACK' in tu.text_of(C.kids(n)[0]) and 'G_IR_NODE_FIELD' not in tu.text_of(C.kids(n)[0]):
-            cbtexts = stmt_texts(tu, C.kids(n)[1])
-    r1.check(cbtexts == ['size=GI_ALIGN(size,ffi_type_pointer.alignment)', 'alignment=MAX(alignment,ffi_type_pointer.alignment)', 'size+=ffi_type_pointer.size'],
-             'callback members are laid out as pointers', GO, tu.line(sf), 'callback member steps: %s' % cbtexts, detail=cbtexts)
-    uf = tu.func('compute_union_field_offsets')
-    ifs, then, els = success_block(tu, uf)
-    ut = stmt_texts(tu, then)
-    r1.check(sorted(ut) == sorted(['size=MAX(size,member_size)', 'alignment=MAX(alignment,member_alignment)']), 'union member: size and alignment are maxima', GO,
-             tu.line(then), 'union member steps: %s' % ut, detail=ut)
-    after = tail(uf)
-    r1.check(after and after[0] == 'size=GI_ALIGN(size,alignment)', 'union tail padding right after the member loop', GO, tu.line(uf),
-             'after the member loop of compute_union_field_offsets: %s — a union whose largest member is not a multiple of the strictest alignment '
-             'gets a size smaller than sizeof()' % after[:2], detail=after[:1])
-    # published values
-    for f in (sf, uf):
-        pub = {}
-        for l, r, s_ in C.assignments(tu.body(f)):
-            p = ns(tu.text_of(l))
-            if p in ('*size_out', '*alignment_out'):
-                g = [ns(tu.text_of(c)) + ('' if pol else '=F') for c, pol, o in C.guards(tu, s_)]
-                pub.setdefault(p, []).append((ns(tu.text_of(r)), g))
-        ok = ('size', ['!have_error']) in pub.get('*size_out', []) and ('alignment', ['!have_error']) in pub.get('*alignment_out', []) and \
-             ('-1', ['!have_error=F']) in pub.get('*size_out', []) and ('-1', ['!have_error=F']) in pub.get('*alignment_out', [])
-        r1.check(ok, '%s publishes (size, alignment) or (-1, -1)' % f['name'], GO, tu.line(f), 'published: %s' % pub, detail=str(pub)[:200])
+    GFSA = r'^get_field_size_alignment\('
+    sums = {}
+    for fname in ('compute_struct_field_offsets', 'compute_union_field_offsets'):
+        S = cgsa.summarise(ctx, GO, fname, opaque=('get_field_size_alignment',))
+        f = S.func
+        gc = [e for e in S.effects if e.kind == 'call' and e.target == 'get_field_size_alignment']
+        if not gc or len(gc[0].args) < 5 or not gc[0].args[3].startswith('&') or not gc[0].args[4].startswith('&'):
+            raise AnalysisError('%s: call get_field_size_alignment(..., &size, &alignment) not found' % fname)
+        M, A = gc[0].args[3][1:], gc[0].args[4][1:]
+        carried = sorted(set(re.findall(r'@carried:(\w+)#', ' '.join(S.atoms()))))
+        pub_s = [e for e in S.effects if e.kind == 'store' and e.target == '*%s' % S.P(3)]
+        pub_a = [e for e in S.effects if e.kind == 'store' and e.target == '*%s' % S.P(4)]
+        ok_s = [e for e in pub_s if e.value != '-1']
+        ok_a = [e for e in pub_a if e.value not in ('-1', '-2')]
+        sums[fname] = (S, M, A, carried, pub_s, pub_a, ok_s, ok_a)
+        tails = [TAIL.match(e.value) for e in ok_s]
+        r1.check(bool(ok_s) and all(t_ and t_.group(2) == t_.group(3) for t_ in tails), '%s: size is padded to a multiple of the alignment before it is published' % fname, GO, tu.line(f),
+                 'published sizes %s are not GI_ALIGN (size, alignment) = (size + alignment - 1) & ~(alignment - 1)' % sorted(set(e.value for e in ok_s))[:3], detail=sorted(set(e.value for e in ok_s))[:4])
+        aligns = set(t_.group(2) for t_ in tails if t_)
+        r1.check(A in aligns and set(e.value for e in ok_a) == aligns, '%s: the published alignment is the one the size was padded to, and it includes each member alignment' % fname, GO, tu.line(f),
+                 'tail alignments %s, published alignments %s' % (sorted(aligns), sorted(set(e.value for e in ok_a))), detail=sorted(aligns))
+        amax = [e for e in ok_a if e.value == A]
+        r1.check(bool(amax) and all(any(re.search(r'%s' % re.escape(A), a_) and ' < ' in a_ for a_ in gsa.atoms(e.cond)) for e in amax),
+                 '%s: alignment = MAX (alignment, member alignment)' % fname, GO, tu.line(f), 'the member alignment is taken without comparing it with the running maximum')
+        # published (size, alignment) or (-1, -1)
+        ERR = [(r'^have_error$', True), (r'^@carried:have_error', True)]
+        NOERR = [(r'^have_error$', False), (GFSA, True)]
+        bad_s = [e for e in pub_s if e.value == '-1']
+        bad_a = [e for e in pub_a if e.value == '-1']
+        okp = bool(bad_s) and bool(bad_a) and all(gsa.impossible(S, e, NOERR) and gsa.allowed(S, e, ERR) for e in bad_s + bad_a) and \
+            all(gsa.impossible(S, e, ERR) and gsa.allowed(S, e, NOERR) for e in ok_s + ok_a)
+        r1.check(okp, '%s publishes (size, alignment) or (-1, -1)' % fname, GO, tu.line(f), 'published: %s / %s' % (sorted(set(e.value for e in pub_s))[:4], sorted(set(e.value for e in pub_a))[:4]))
+        he = [e for e in S.effects if e.kind == 'local' and e.target == 'have_error' and e.value in ('1', '!0')]
+        r1.check(bool(he) and all(gsa.impossible(S, e, [(GFSA, True), (r'^have_error$', False)]) for e in he) and any(gsa.allowed(S, e, [(GFSA, False), (r'^have_error$', False)]) for e in he), '%s: failure is recorded' % fname, GO, tu.line(f),
+                 'a member whose size is unknown does not set have_error')
+    S, M, A, carried, pub_s, pub_a, ok_s, ok_a = sums['compute_struct_field_offsets']
+    sf = S.func
+    offs = [e for e in S.effects if e.kind == 'store' and e.target.endswith('->offset')]
+    good = [e for e in offs if e.value != '-1']
+    bases = set()
+    okoff = bool(good)
+    for e in good:
+        mm = TAIL.match(e.value)
+        if not (mm and mm.group(2) == mm.group(3) == A):
+            okoff = False
+        else:
+            bases.add(mm.group(1))
+    SZ = sorted(bases - {'0'})
+    r1.check(okoff and len(SZ) == 1 and SZ[0] in carried, 'struct member: offset = running size aligned to the member alignment', GO, good[0].line if good else tu.line(sf),
+             'field offsets are stored as %s' % sorted(set(e.value for e in good)), detail=sorted(set(e.value for e in good)))
+    sz = SZ[0] if SZ else 'size'
+    adv = set()
+    for e in ok_s:
+        mm = TAIL.match(e.value)
+        if mm:
+            adv.add(mm.group(1))
+    want_field = set('((%s)+%s)' % (rup(b_, A), M) for b_ in ('0', sz))
+    want_cb = set('((%s)+ffi_type_pointer.size)' % rup(b_, 'ffi_type_pointer.alignment') for b_ in ('0', sz))
+    r1.check(want_field <= adv, 'struct member: advance by the member size after aligning', GO, tu.line(sf), 'sizes before tail padding: %s, expected to include %s' % (sorted(adv), sorted(want_field)), detail=sorted(adv))
+    r1.check(want_cb <= adv, 'callback members are laid out as pointers', GO, tu.line(sf), 'sizes before tail padding: %s, expected to include %s' % (sorted(adv), sorted(want_cb)))
+    r1.check(adv <= want_field | want_cb | {'0', sz}, 'struct member: nothing else touches size/offset', GO, tu.line(sf), 'unexpected size computations: %s' % sorted(adv - want_field - want_cb - {'0', sz}))
+    US, UM, UA, ucar, upub_s, upub_a, uok_s, uok_a = sums['compute_union_field_offsets']
+    ub = set()
+    for e in uok_s:
+        mm = TAIL.match(e.value)
+        if mm:
+            ub.add(mm.group(1))
+    usz = sorted(x for x in ub if x in ucar)
+    r1.check(UM in ub and len(usz) == 1 and ub <= {'0', UM, usz[0]}, 'union member: size and alignment are maxima', GO, tu.line(US.func), 'union sizes before tail padding: %s' % sorted(ub), detail=sorted(ub))
+    mx = [e for e in uok_s if TAIL.match(e.value) and TAIL.match(e.value).group(1) == UM]
+    r1.check(bool(mx) and all(any(re.search(r' < %s$|^%s < |%s' % (re.escape(UM), re.escape(UM), re.escape(UM)), a_) and ' < ' in a_ for a_ in gsa.atoms(e.cond)) for e in mx),
+             'union member: member size replaces the running size only when larger', GO, tu.line(US.func), 'member size taken without comparing it with the running maximum')
 
     # ------------------------------------------------------------------ R2 unknown stays unknown
     r2 = ctx.rule('R2', 'a member of unknown size poisons the layout; unknown offsets are encoded as 0xFFFF', floor=5)
-    offs = [(ns(tu.text_of(r)), [ns(tu.text_of(c)) for c, pol, o in C.guards(tu, s_) if pol]) for l, r, s_ in C.assignments(tu.body(sf))
-            if (C.member_path(l) or '') == 'field->offset']
-    r2.check(('-1', ['member->type==G_IR_NODE_FIELD', 'have_error']) in offs, 'after an error every field offset is -1', GO, tu.line(sf), 'field->offset stores: %s' % offs, detail=offs)
-    gta = tu.func('get_type_size_alignment')
-    fails = []
-    for n in C.walk(tu.body(gta)):
-        if n.get('kind') == 'ReturnStmt' and C.int_value(C.kids(n)[0]) == 0:
-            blk = tu.par(n)
-            fails.append(stmt_texts(tu, blk))
-    r2.check(len(fails) >= 3 and all('*size=-1' in f_ and '*alignment=-1' in f_ for f_ in fails), 'unknown types report size -1 / alignment -1', GO, tu.line(gta),
-             'failure blocks: %s' % fails)
-    arr = None
-    for n in C.walk(tu.body(gta)):
-        if n.get('kind') == 'IfStmt' and ns(tu.text_of(C.kids(n)[0])) == 'type->tag==GI_TYPE_TAG_ARRAY':
-            arr = n
-    if arr is None:
-        raise AnalysisError('get_type_size_alignment: array branch not found')
-    at = ns(tu.text_of(C.kids(arr)[1]))
-    r2.check('!type->has_size||!get_type_size_alignment(build,type->parameter_type1,&elt_size,&elt_alignment,who)' in at and '*size=type->size*elt_size' in at and
-             '*alignment=elt_alignment' in at, 'fixed-size array: count * element size, element alignment; unknown without fixed size', GO, tu.line(arr),
-             'array branch changed')
-    first = C.kids(tu.body(gta))
-    ptr = [n for n in C.walk(tu.body(gta)) if n.get('kind') == 'IfStmt' and ns(tu.text_of(C.kids(n)[0])) == 'type->is_pointer']
-    r2.check(len(ptr) == 1 and 'type_ffi=&ffi_type_pointer' in ns(tu.text_of(C.kids(ptr[0])[1])), 'pointers have pointer size', GO, tu.line(gta), 'pointer branch changed')
+    neg1 = [e for e in offs if e.value == '-1']
+    r2.check(bool(neg1) and all(gsa.impossible(S, e, [(r'^have_error$', False), (GFSA, True)]) and gsa.allowed(S, e, [(r'^have_error$', True), (r'^@carried:have_error', True)]) for e in neg1),
+             'after an error every field offset is -1', GO, tu.line(sf), 'field->offset = -1 stores: %s' % [gsa.show(e.cond)[:120] for e in neg1][:2])
+    GT = cgsa.summarise(ctx, GO, 'get_type_size_alignment', opaque=('get_interface_size_alignment', 'get_type_size_alignment'))
+    gta = GT.func
+    sp, ap = GT.P(2), GT.P(3)
+    fails = [e for e in GT.effects if e.kind == 'return' and e.value == '0']
+    s1 = [e for e in GT.effects if e.kind == 'store' and e.target == '*%s' % sp and e.value == '-1']
+    a1 = [e for e in GT.effects if e.kind == 'store' and e.target == '*%s' % ap and e.value == '-1']
+    r2.check(len(fails) >= 3 and all(gsa.implies(r_.cond, gsa.cond_any(s1)) and gsa.implies(r_.cond, gsa.cond_any(a1)) for r_ in fails), 'unknown types report size -1 / alignment -1', GO, tu.line(gta),
+             'a failing return of get_type_size_alignment leaves *size / *alignment unset: failures %s' % [gsa.show(r_.cond)[:100] for r_ in fails][:3])
+    REC = r'^get_type_size_alignment\(.*parameter_type1'
+    arr_s = [e for e in GT.effects if e.kind == 'store' and e.target == '*%s' % sp and re.match(r'^(type->size\*\w+|\w+\*type->size)$', e.value)]
+    arr_a = [e for e in GT.effects if e.kind == 'store' and e.target == '*%s' % ap and re.match(r'^\w+$', e.value) and e.value != '-1']
+    okarr = bool(arr_s) and bool(arr_a) and all(gsa.impossible(GT, e, [(r'^type->has_size$', False)]) and gsa.impossible(GT, e, [(REC, False)]) and gsa.allowed(GT, e, [(r'^type->has_size$', True), (REC, True), (r'ARRAY$', True), (r'is_pointer$', False)])
+                                               for e in arr_s + arr_a)
+    r2.check(okarr, 'fixed-size array: count * element size, element alignment; unknown without fixed size', GO, tu.line(gta), 'array branch changed: %s' % [(e.value, gsa.show(e.cond)[:100]) for e in arr_s + arr_a][:3])
+    ptr = [e for e in GT.effects if e.kind == 'store' and e.target == '*%s' % sp and re.search(r'ffi_type_pointer(\.|->)size$', e.value)]
+    r2.check(bool(ptr) and any(gsa.allowed(GT, e, [(r'^type->is_pointer$', True)]) and gsa.impossible(GT, e, [(r'^type->is_pointer$', False)]) for e in ptr), 'pointers have pointer size', GO, tu.line(gta), 'pointer branch changed')
     gn = ctx.c.tu(GN)
     bt = gn.func('_g_ir_node_build_typelib')
-    so = [(ns(gn.text_of(r)), [ns(gn.text_of(c)) + ('' if pol else '=F') for c, pol, o in C.guards(gn, s_)][-1:]) for l, r, s_ in C.assignments(gn.body(bt))
-          if ns(gn.text_of(l)) == 'blob->struct_offset' and 'field' in gn.text_of(r) + ''.join(gn.text_of(c) for c, p_, o in C.guards(gn, s_))]
-    r2.check(('field->offset', ['field->offset>=0']) in so and ('0xFFFF', ['field->offset>=0=F']) in so, 'unknown field offset written as 0xFFFF', GN, gn.line(bt),
+    so = []
+    tern = False
+    for l, r, s_ in C.assignments(gn.body(bt)):
+        if ns(gn.text_of(l)) == 'blob->struct_offset' and 'field' in gn.text_of(r) + ''.join(gn.text_of(c) for c, p_, o in C.guards(gn, s_)):
+            rt = ns(gn.text_of(r))
+            so.append((rt, [ns(gn.text_of(c)) + ('' if pol else '=F') for c, pol, o in C.guards(gn, s_)][-1:]))
+            if rt in ('(field->offset>=0)?field->offset:0xFFFF', 'field->offset>=0?field->offset:0xFFFF', '(field->offset<0)?0xFFFF:field->offset', 'field->offset<0?0xFFFF:field->offset'):
+                tern = True
+    r2.check(tern or (('field->offset', ['field->offset>=0']) in so and ('0xFFFF', ['field->offset>=0=F']) in so), 'unknown field offset written as 0xFFFF', GN, gn.line(bt),
              'FieldBlob.struct_offset stores: %s' % so, detail=so)
 
     # ------------------------------------------------------------------ R3 tag -> machine type tables
@@ -159,24 +169,27 @@ def check(ctx):
     for tag, exp in sorted(EXPECT.items()):
         got = table.get('GI_TYPE_TAG_' + tag)
         r3.check(got == exp, 'GI_TYPE_TAG_%s -> %s' % (tag, exp), GF, gf.line(tf), 'GI_TYPE_TAG_%s maps to %s, expected %s' % (tag, got, exp), detail=got)
-    ef = tu.func('get_enum_size_alignment')
-    sws = [n for n in C.walk(tu.body(ef)) if n.get('kind') == 'SwitchStmt']
-    for labels, stmts in C.switch_cases(tu, sws[0]):
-        if labels == ['default']:
-            continue
-        widths = set(re.findall(r'\d+', ' '.join(labels)))
-        asg = [ns(tu.text_of(r)) for s_ in stmts for l, r, a in C.assignments(s_) if C.declref(l) == 'type_ffi']
-        fw = set(re.findall(r'\d+', ' '.join(asg)))
-        r3.check(len(widths) == 1 and fw == widths and len(asg) == 1, 'enum storage %s -> %s' % ('/'.join(l.replace('GI_TYPE_TAG_', '') for l in labels), asg), GO,
-                 tu.line(stmts[0]), 'enum storage tags %s are sized with %s: an enumeration stored in %s bits is laid out with the size/alignment of a %s-bit '
-                 'integer' % (labels, asg, sorted(widths), sorted(fw)), detail=asg)
+    ES = cgsa.summarise(ctx, GO, 'get_enum_size_alignment', opaque=('compute_enum_storage_type',))
+    ef = ES.func
+    szp = ES.P(1)
+    for bits in (8, 16, 32, 64):
+        for sign in ('INT', 'UINT'):
+            tag = 'GI_TYPE_TAG_%s%d' % (sign, bits)
+            val = dict((a_, a_.endswith('== ' + tag)) for a_ in ES.atoms() if re.search(r'storage_type == GI_TYPE_TAG_\w+$', a_))
+            got = sorted(set(e.value for e in ES.effects if e.kind == 'store' and e.target == '*%s' % szp and gsa.can_hold(e.cond, val)))
+            r3.check(len(got) == 1 and re.match(r'^&?ffi_type_[us]int%d(->|\.)size$' % bits, got[0]), 'enum storage %s%d -> %d-bit ffi type' % (sign, bits, bits), GO, tu.line(ef),
+                     'an enumeration stored as %s is sized as %s: it is laid out with the size/alignment of an integer of another width' % (tag, got), detail=got)
     r3.exhaustive = True
     # storage type from width
-    cs = tu.func('compute_enum_storage_type')
+    CE = cgsa.summarise(ctx, GO, 'compute_enum_storage_type')
+    cs = CE.func
+    st_eff = [e for e in CE.effects if e.kind == 'store' and e.target.endswith('->storage_type')]
+    watoms = [a_ for a_ in CE.atoms() if re.match(r'^sizeof\(\w+\) == \d+$', a_)]
     for w, bits in ((1, 8), (2, 16), (4, 32), (8, 64)):
-        txt = ns(tu.text_of(cs))
-        r3.check('width==%d)enum_node->storage_type=signed_type?GI_TYPE_TAG_INT%d:GI_TYPE_TAG_UINT%d' % (w, bits, bits) in txt, 'enum width %d -> (U)INT%d' % (w, bits), GO,
-                 tu.line(cs), 'width %d no longer maps to INT%d/UINT%d' % (w, bits, bits))
+        val = dict((a_, a_.endswith('== %d' % w)) for a_ in watoms)
+        got = sorted(set(e.value for e in st_eff if gsa.can_hold(e.cond, val)))
+        r3.check(got == ['GI_TYPE_TAG_INT%d' % bits, 'GI_TYPE_TAG_UINT%d' % bits], 'enum width %d -> (U)INT%d' % (w, bits), GO,
+                 tu.line(cs), 'an enumeration of width %d is stored as %s, expected INT%d/UINT%d' % (w, got, bits, bits), detail=got)
 
     # ------------------------------------------------------------------ R4 embedded arrays
     r4 = ctx.rule('R4', 'a fixed-size array directly inside a field is embedded (not a pointer), whatever its other attributes', floor=2)
@@ -190,7 +203,10 @@ def check(ctx):
     r4.check(['typenode->has_size&&ctx->current_typed->type==G_IR_NODE_FIELD'] in hits, 'is_pointer cleared for every fixed-size array in a field', GP, gp.line(stf),
              'start_type() clears is_pointer under %s: a fixed-size array field that carries further attributes (e.g. zero-terminated="1") is laid out as '
              'a pointer instead of count*element' % hits, detail=hits)
-    gfa = tu.func('get_field_size_alignment')
-    t = ns(tu.text_of(gfa))
-    r4.check('if(field->callback){*size=ffi_type_pointer.size;*alignment=ffi_type_pointer.alignment;success=TRUE;}' in t, 'callback fields are pointers', GO, tu.line(gfa),
-             'callback field sizing changed')
+    GFA = cgsa.summarise(ctx, GO, 'get_field_size_alignment', opaque=('get_type_size_alignment',))
+    gfa = GFA.func
+    cbs = [e for e in GFA.effects if e.kind == 'store' and e.target == '*%s' % GFA.P(3) and e.value == 'ffi_type_pointer.size']
+    cba = [e for e in GFA.effects if e.kind == 'store' and e.target == '*%s' % GFA.P(4) and e.value == 'ffi_type_pointer.alignment']
+    okcb = bool(cbs) and bool(cba) and all(gsa.impossible(GFA, e, [(r'->callback$', False)]) and gsa.allowed(GFA, e, [(r'->callback$', True)]) for e in cbs + cba)
+    rets = [e for e in GFA.effects if e.kind == 'return' and gsa.can_hold(e.cond, dict((a_, True) for a_ in GFA.atoms() if a_.endswith('->callback')))]
+    r4.check(okcb and rets and all(e.value in ('1', '!0') for e in rets), 'callback fields are pointers', GO, tu.line(gfa), 'callback field sizing changed: %s' % [(e.target, e.value) for e in cbs + cba])
